@@ -219,9 +219,9 @@ impl Reader {
                     return Err(format::Error::Malformed);
                 }
                 let item_header = self.item_header(i);
-                if item_header.size < 0 {
+                if item_header.size < 0 || item_header.size % 4 != 0 {
                     error!(
-                        "item has negative size, item={} size={}",
+                        "item has negative or unaligned size, item={} size={}",
                         i, item_header.size
                     );
                     return Err(format::Error::Malformed);
